@@ -82,7 +82,46 @@ pub fn run_case(cx: &mut Ctx) {
         0 => 12 + rng.usize_below(20),
         _ => 1 + rng.usize_below(4),
     };
-    let mfs: Vec<MF> = (0..nf).map(|i| gen_family(&mut rng, i, &fpool)).collect();
+    let mut mfs: Vec<MF> = (0..nf).map(|i| gen_family(&mut rng, i, &fpool)).collect();
+    // one case in forty: sizes well above the usual (many labels, many buckets, many samples, a very long
+    // string) so that capacity-growth paths and size thresholds of the encoders are crossed
+    if cx.case % 40 == 7 {
+        cx.part.count("oversized_families", 1);
+        let f = &mut mfs[0];
+        match rng.below(4) {
+            0 => {
+                let m = f.metrics[0].clone();
+                for i in 0..(300 + rng.usize_below(1200)) {
+                    let mut c = m.clone();
+                    c.labels.push(("idx".to_string(), format!("{}", i)));
+                    f.metrics.push(c);
+                }
+            }
+            1 => {
+                for m in f.metrics.iter_mut() {
+                    m.labels = (0..(70 + rng.usize_below(200))).map(|i| (format!("l{}", i), pools::any_string(&mut rng))).collect();
+                }
+            }
+            2 => {
+                f.typ = MType::Histogram;
+                for m in f.metrics.iter_mut() {
+                    m.counter = None;
+                    m.gauge = None;
+                    m.summ = None;
+                    let n = 260 + rng.usize_below(800);
+                    m.hist = Some(Hist { count: n as u64 * 3, sum: 1.5, buckets: (0..n).map(|i| (i as f64 * 0.25, i as u64 * 2)).collect() });
+                }
+            }
+            _ => {
+                let unit = pools::any_string(&mut rng);
+                let long: String = std::iter::repeat(if unit.is_empty() { "é\\\"\n" } else { unit.as_str() }).take(70_000 / (unit.len().max(1)) + 2).collect();
+                f.help = long.clone();
+                if let Some(m) = f.metrics.first_mut() {
+                    m.labels.push(("long".to_string(), long));
+                }
+            }
+        }
+    }
     let pmfs: Vec<prometheus::proto::MetricFamily> = mfs.iter().map(build).collect();
     cx.part.evaluations += 1;
     cx.part.count("hand_built_families", nf as u64);
